@@ -206,7 +206,7 @@ class Path:
 
 class Engine:
     def __init__(self, contracts=None, inline=None, merge_calls=None, subst=None, package='armulator',
-                 query_timeout_ms=20000, max_paths=20000, loop_bound=64, logic='QF_UFBV', mul_uf=False):
+                 query_timeout_ms=20000, max_paths=20000, loop_bound=64, logic='QF_UFBV', mul_uf=False, oneshot=True):
         self.contracts = contracts or {}
         self.inline = set(inline or ())          # functions whose contract is NOT used (unit under test)
         self.merge_calls = set(merge_calls or ())
@@ -214,6 +214,7 @@ class Engine:
         self.package = package
         self.solver = z3.SolverFor(logic)
         self.logic = logic
+        self.oneshot = oneshot                   # obligations the incremental solver leaves open go to a fresh one-shot solver first
         self.quick_timeout_ms = 2500             # incremental attempt of an obligation before the one-shot solver takes over
         self.solver.set('timeout', query_timeout_ms)
         self.query_timeout_ms = query_timeout_ms
@@ -486,9 +487,17 @@ class Engine:
                 r, m = self._check(z3.Not(c))
             finally:
                 self.solver.set('timeout', self.query_timeout_ms)
-            if r == z3.unknown:
-                r, m = self._check_fresh(budget, z3.Not(c))
+            if r == z3.unknown and self.oneshot:
+                r, m = self._check_fresh(min(budget, self.query_timeout_ms), z3.Not(c))
                 ob.backend = 'z3-oneshot'
+            if r == z3.unknown and budget > self.quick_timeout_ms:
+                # portfolio: some goals (deep ite chains over addresses) suit the incremental core better
+                self.solver.set('timeout', budget)
+                try:
+                    r, m = self._check(z3.Not(c))
+                finally:
+                    self.solver.set('timeout', self.query_timeout_ms)
+                ob.backend = 'z3'
             extra_defs = []
             if r == z3.sat and sym.MUL_UF[0]:
                 # products were abstracted by an uninterpreted function: re-examine with their exact definitions
